@@ -40,6 +40,8 @@ type Prog struct {
 	byLit   map[*ast.FuncLit]*Func
 	Clients []*Func // functions of non-library packages of the module (mocks, examples)
 	RepoDir string
+
+	roleKeysMemo map[*Func]map[string]bool
 }
 
 // Func is a function declaration or function literal with a body.
